@@ -227,6 +227,11 @@ func scenarios() []scenario {
 		out = append(out, scenario{"N-restore-blanks-2x1", 2, 1, nops, 4, 5, []op{{kind: "clear"}, {kind: "show"}}})
 		out = append(out, scenario{"W3-wide-row-end-3x2", 3, 2, ops, 4, 5, []op{{kind: "clear"}, {kind: "show"}}}) // every cell holds a stored blank and is clean
 	}
+	{ // B: the bottom-right detour next to wide runes, one of them stale under another (only
+		// meaningful where the corner is painted through its neighbour)
+		ops := []op{{kind: "set", x: 3, y: 0, r: 'a'}, {kind: "set", x: 3, y: 0, r: 'b', st: 1}, {kind: "set", x: 2, y: 0, r: 'c'}, {kind: "set", x: 0, y: 0, r: '世'}, {kind: "set", x: 1, y: 0, r: '界'}, show}
+		out = append(out, scenario{"B-corner-wide-4x1", 4, 1, ops, 3, 4, []op{{kind: "set", x: 1, y: 0, r: '世'}, {kind: "set", x: 0, y: 0, r: '世'}, {kind: "show"}}})
+	}
 	{ // E: LINES / COLUMNS set to values that differ from the tty's size
 		ops := []op{{kind: "set", x: 0, y: 0, r: 'a'}, {kind: "set", x: 2, y: 1, r: 'z', st: 1}, {kind: "set", x: 1, y: 0, r: '世'}, {kind: "cursor", x: 2, y: 1}, show, sync}
 		out = append(out, scenario{"E-env-size-hints-3x2", 3, 2, ops, 4, 5, nil})
@@ -1059,6 +1064,15 @@ func main() {
 					if cfg.truecolor && sc.name[0] != 'S' {
 						continue
 					}
+				}
+			}
+			if sc.name[0] == 'B' && (!cfg.brTrick || cfg.truecolor) {
+				continue
+			}
+			if sc.name[0] == 'B' {
+				depth = sc.dq
+				if hc.Thorough() {
+					depth = sc.dt
 				}
 			}
 			if w.Expired() {
